@@ -20,6 +20,7 @@ type Known struct {
 	Canary     string `json:"canary,omitempty"` // replay file under /verif/canaries
 	Fixed      string `json:"fixed,omitempty"`  // commit of the fix: entry is a record only
 	Site       string `json:"site,omitempty"`   // for frame/taint findings: the call site / field
+	History    string `json:"history,omitempty"` // a finding no obligation expresses: the sequence of calls that fails (its canary is replayed)
 	whenExpr   ast.Expr
 }
 
@@ -52,6 +53,9 @@ func loadKnown() error {
 			k.whenExpr = e
 		}
 		knownList = append(knownList, k)
+		if k.Obligation == "" {
+			continue // a history finding: reported by replaying its canary
+		}
 		knownByObl[k.Obligation] = k
 	}
 	return nil
